@@ -45,11 +45,11 @@ Definition wf_entry (e : pb_entry) : Prop :=
   u64 (pe_index e) /\ u64 (pe_term e) /\ u64 (pe_offset e) /\ pe_type e < 2 ^ 31 /\
   N.of_nat (length (pe_data e)) < 2 ^ 64.
 
-Lemma wf_fint num v : 1 <= num -> num <= 2147483647 -> u64 v -> Forall wf_field (fint num v).
+Lemma wf_fint num v : 1 <= num -> num <= 536870911 -> u64 v -> Forall wf_field (fint num v).
 Proof. intros. unfold fint. destruct (v =? 0); [constructor|constructor; [|constructor]]. repeat split; assumption. Qed.
-Lemma wf_fbool num v : 1 <= num -> num <= 2147483647 -> Forall wf_field (fbool num v).
+Lemma wf_fbool num v : 1 <= num -> num <= 536870911 -> Forall wf_field (fbool num v).
 Proof. intros. unfold fbool. destruct v; [constructor; [|constructor]|constructor]. repeat split; try assumption. Qed.
-Lemma wf_fbytes num b : 1 <= num -> num <= 2147483647 -> N.of_nat (length b) < 2 ^ 64 -> Forall wf_field (fbytes num b).
+Lemma wf_fbytes num b : 1 <= num -> num <= 536870911 -> N.of_nat (length b) < 2 ^ 64 -> Forall wf_field (fbytes num b).
 Proof. intros. unfold fbytes. destruct b eqn:E; [constructor|constructor; [|constructor]]. repeat split; try assumption; try (rewrite <- E; assumption). Qed.
 Ltac fnum := first [ discriminate | reflexivity | (vm_compute; congruence) ].
 Ltac wf_fields :=
@@ -497,7 +497,7 @@ Proof.
       intro Hin. apply Hnd. apply in_or_app. left. exact Hin.
 Qed.
 
-Lemma kv_field_wf num b : 1 <= num -> num <= 2147483647 -> N.of_nat (length b) < 2 ^ 64 -> wf_field (num, VBytes b).
+Lemma kv_field_wf num b : 1 <= num -> num <= 536870911 -> N.of_nat (length b) < 2 ^ 64 -> wf_field (num, VBytes b).
 Proof. intros. repeat split; assumption. Qed.
 
 (* Length side conditions as for AppendEntries: a serialized map entry fits a
